@@ -14,6 +14,7 @@ from vf.ref.cache import RefCache
 
 ID = "C11"
 LEVEL = "exploration"
+_last_fetches = []
 GEOS = [(0, 0, 1), (1, 0, 1), (0, 1, 1), (0, 1, 2), (1, 1, 2), (0, 2, 1), (0, 0, 2), (2, 0, 1), (0, 0, 4)]
 
 
@@ -30,7 +31,7 @@ def icfgs(seed, thorough):
 
 
 def run_one(mode, prog, regs, words, icache, maxsteps, hazard=True):
-    sim = rv.make_sim(mode, prog, regs, words, hazard=hazard, icache=icache)
+    sim = rv.make_sim(mode, prog, regs, words, hazard=hazard, icache=icache, pre_reset=True)
     log = spy.spy_fetch(sim) if icache is not None else None
     res = rv.run(sim, maxsteps)
     return sim, res, log
@@ -56,6 +57,8 @@ def check_icache(prog, regs, words, cfg, mode, maxsteps):
     ref = RefCache(ib, bb, ways, "wb", policy, pen)
     extra = 0
     last = False
+    global _last_fetches
+    _last_fetches = [a for a, _o in log]
     for a, _o in log:
         hit, e, _ev = ref.access(a, False, True)
         extra += e
@@ -124,13 +127,23 @@ def sized_programs(seed):
         out.append((f"call-pad{pad}", prog))
     for name, prog in templates(seed, False)[:: 37]:
         out.append(("tmpl-" + name, prog))
+    # a loop that calls two subroutines: over-fills a 4-way set and revisits blocks in a non-cyclic order (LRU != PLRU)
+    for iters in (2, 3):
+        for pad in (0, 1, 3):
+            prog = [("addi", 25, 0, 0, iters), ("jal", 27, 0, 0, 4 * (5 + pad)), ("jal", 27, 0, 0, 4 * (6 + pad)), ("addi", 25, 25, 0, -1), ("bne", 0, 25, 0, -12),
+                    ("jal", 0, 0, 0, 4 * (5 + pad))] + [("addi", 26, 26, 0, 1)] * pad + [("addi", r1, r1, 0, 1), ("jalr", 0, 27, 0, 0), ("addi", r2, r2, 0, 1), ("jalr", 0, 27, 0, 0),
+                                                                                    ("addi", 24, 0, 0, 1)]
+            out.append((f"call-loop-x{iters}-pad{pad}", prog))
     return out
+
+
+SIZED_EXTRA_CFGS = [(0, 1, 4, "plru", 2), (1, 0, 4, "plru", 1), (0, 0, 8, "plru", 0), (0, 1, 4, "lru", 2), (0, 0, 3, "lru", 1)]
 
 
 def sized_shard(shard):
     seed, thorough, part, parts = shard
     states = alpha.init_states(seed, 2)
-    cfgs = icfgs(seed, True)
+    cfgs = icfgs(seed, True) + SIZED_EXTRA_CFGS
     p = Partial()
     for i, (name, prog) in enumerate(sized_programs(seed)):
         if i % parts != part:
@@ -143,6 +156,12 @@ def sized_shard(shard):
                     if ref is not None and "eviction" in ref.events:
                         p.nontrivial += 1
                         p.counters["icache-loop-eviction"] += 1
+                    if ref is not None and cfg[2] >= 4 and cfg[3] == "plru":
+                        other = RefCache(cfg[0], cfg[1], cfg[2], "wb", "lru", cfg[4])
+                        for a in _last_fetches:
+                            other.access(a, False, True)
+                        if other.hits != ref.hits:
+                            p.counters["fetch-stream-distinguishes-plru-from-lru"] += 1
                     for f, d in bad:
                         p.violation(dict(oracle="icache", field=f), case_of(prog, st["regs"], st["words"], cfg, mode, 400),
                                     f"{name} [{rv.prog_text(prog)}] icache i{cfg[0]}b{cfg[1]}w{cfg[2]} {cfg[3]} pen={cfg[4]} {mode}: {d}", size=(len(prog), i, si, ci))
@@ -153,7 +172,9 @@ def sized_shard(shard):
 PA = "addi x1, x0, 1\naddi x2, x0, 2\nadd x3, x1, x2\nbeq x0, x0, 8\naddi x4, x0, 4\naddi x5, x0, 5\n"
 PB = "lui x6, 1\naddi x7, x0, 7\njal x1, 16\naddi x8, x0, 8\naddi x9, x0, 9\naddi x10, x0, 10\naddi x17, x0, 93\necall\n"
 PC = ""
-TEXTS = [PA, PB, PC]
+PD = ("addi x25, x0, 3\nloop: jal x27, f\njal x27, g\naddi x25, x25, -1\nbne x25, x0, loop\njal x0, end\nf: addi x6, x6, 1\njalr x0, x27, 0\n"
+      "g: addi x7, x7, 1\njalr x0, x27, 0\nend: addi x8, x0, 1\n")
+TEXTS = [PA, PB, PC, PD]
 
 
 def snapshot(sim):
@@ -170,7 +191,7 @@ def _cache_text(sim):
     return [(s.index, [(b.valid_bit, b.tag, [(a, v) for a, v in b.address_value_list]) for b in s.blocks], list(s.replacement_status)) for s in cr.sets]
 
 
-def reload_case(cfg, mode, xi, yi, k, maxsteps=60):
+def reload_case(cfg, mode, xi, yi, k, maxsteps=90):
     """load X; k steps; load Y; run. Returns (list of (field, detail), nontrivial)."""
     from architecture_simulator.simulation.riscv_simulation import RiscvSimulation
 
@@ -206,6 +227,7 @@ def reload_case(cfg, mode, xi, yi, k, maxsteps=60):
     refc = RefCache(ib, bb, ways, "wb", policy, pen)
     c0 = sim.state.performance_metrics.cycles
     steps = 0
+    faulted = False
     try:
         while not sim.is_done() and steps < maxsteps:
             sim.step()
@@ -216,7 +238,7 @@ def reload_case(cfg, mode, xi, yi, k, maxsteps=60):
                     bad.append(("run-after-reload", f"step {steps} after reload differs from the same step on a fresh simulation"))
                     break
     except rv.InstructionExecutionException:
-        pass
+        faulted = True  # the cycle accounting of a step that ends in a fault is not part of the claim
     extra = 0
     for a, o in log:
         extra += refc.access(a, False, True)[1]
@@ -226,7 +248,7 @@ def reload_case(cfg, mode, xi, yi, k, maxsteps=60):
     st = sim.get_instruction_cache_stats()
     if int(st["accesses"]) != len(log) or int(st["hits"]) != refc.hits:
         bad.append(("reload-accounting", f"after reload: stats {st}, fetches {len(log)}, reference hits {refc.hits}"))
-    if sim.state.performance_metrics.cycles - c0 != steps + extra:
+    if not faulted and sim.state.performance_metrics.cycles - c0 != steps + extra:
         bad.append(("reload-penalty", f"cycles advanced by {sim.state.performance_metrics.cycles - c0} in {steps} steps with penalties {extra}"))
     return bad, warmed and len(log) > 0
 
@@ -282,7 +304,7 @@ def run(ctx):
     part = pmap(sized_shard, [(seed, thorough, i, 32) for i in range(32)])
     ctx.space("icache-sized-loops-and-calls", part, t0, programs=len(sized_programs(seed)), cache_configs=len(icfgs(seed, True)))
     t0 = time.time()
-    rc = [(0, 0, 1, "lru", 2), (1, 0, 1, "lru", 0), (0, 1, 2, "plru", 3), (1, 1, 2, "lru", 1)] + ([(0, 2, 1, "lru", 2), (0, 0, 4, "plru", 0)] if thorough else [])
+    rc = [(0, 0, 1, "lru", 2), (1, 0, 1, "lru", 0), (0, 1, 2, "plru", 3), (1, 1, 2, "lru", 1), (0, 0, 4, "plru", 1), (0, 1, 4, "plru", 0)] + ([(0, 2, 1, "lru", 2), (1, 0, 4, "plru", 2)] if thorough else [])
     part = pmap(reload_shard, [(c, m, 14) for c in rc for m in (rv.SINGLE, rv.FIVE)])
     ctx.space("icache-reload", part, t0, histories="load X; k steps (k = 0..14); load Y; run to completion, X, Y in {P_a, P_b, empty}")
-    ctx.require("icache-eviction", "icache-hit", "icache-miss", "icache-loop-eviction", "reload-over-warm-cache")
+    ctx.require("icache-eviction", "icache-hit", "icache-miss", "icache-loop-eviction", "reload-over-warm-cache", "fetch-stream-distinguishes-plru-from-lru")
